@@ -1,19 +1,19 @@
 (* C01 — Equality is sound: no equality is reported that the input does not imply.
-   SECOND SESSION - soundness of the e-graph MODEL itself (EGraph/Sound*.v, KidsCov.v, KeyInv.v; about 15 000 lines):
-   the invariant `Sound E s` (every union-find edge, every stored e-node and every member of every class group
-   relates terms that are Deriv-equal from the asserted equations E, under all compatible renamings) holds in
-   the empty e-graph and is preserved by insertion, by union (move_to, shrink_slots, group extension) and by the
-   whole of rebuild (re-canonicalisation, upward shrink, self-symmetries, re-adding), with ONE exception: the
-   hash-cons-hit step (handle_congruence -> pc_congruence) composes the bijections of two separately computed weak
-   shapes without comparing the shapes; that they are equal at every call in a reachable state is reduced to a key
-   invariant whose preservation is not proved (KeyInv.v).  Hence two end-to-end theorems at the end of this file:
-     C01_model_sound_modulo_congruence : sound for ALL histories, given that one step (stated as its only premise);
-     C01_model_sound_certified         : sound, with NO semantic premise, for every history on which the GUARDED model
-                                         run succeeds (the guard compares the two weak shapes at each hash-cons hit and
-                                         the guarded functions refine the real ones) - an executable premise that the
-                                         correspondence evaluates on every explored history (stream `certified`).
-   Together with the per-run agreement of the implementation's equality matrix with the model's this covers the
-   implementation on every explored history; for unexplored histories the tie model = implementation is the gap.
+   SECOND SESSION - soundness of the e-graph MODEL itself is PROVED (EGraph/Sound*.v, NodeCong.v, ShapeCong.v,
+   EntriesPersist.v, KidsCov.v, KeyInv.v, SynNodup.v, ...; about 20 000 lines, no axiom):
+     C01_model_sound : for every history of insertions and unions whose terms use user slot names only and have
+       one child per invocation position, if the model reports two handles equal then the two inserted terms are
+       derivable-equal (Deriv) from the equations asserted by the unions of that history.
+   The invariant `Sound E s` (every union-find edge, every stored e-node and every member of every class group relates
+   terms that are Deriv-equal from E under all compatible renamings) holds in the empty e-graph and is preserved by
+   insertion, by union (move_to, shrink_slots, group extension) and by the whole of rebuild (re-canonicalisation,
+   upward shrink, hash-cons hits, self-symmetries, re-adding).  The hash-cons-hit step composes the bijections of two
+   separately computed weak shapes without comparing them; that they agree at every call is carried by the run
+   invariant KS (every stored key is node-congruent to its source's syntactic node) - SoundClosed.v.
+   C01_model_sound_modulo_congruence and C01_model_sound_certified (guarded model, evaluated per run) are the two
+   earlier forms, kept: the second also tells, for each explored history, that the guard never fired.
+   The implementation is tied to the model by the per-run agreement of the equality matrices after every operation;
+   for unexplored histories that tie is the remaining gap.
    ALSO proved are the three certificate principles with which every equality the implementation
    reports is judged on every run:
    (1) an equality confirmed by the bounded closure is implied (C01_confirmed_by_closure),
@@ -54,6 +54,17 @@ Theorem C01_model_sound_modulo_congruence : spec_HC_sim_x syn_cov ->
   eg_eq s a b = Ok true -> Deriv (asserted terms ops) 0 ti tj.
 Proof. exact equality_sound_modulo_congruence. Qed.
 Print Assumptions C01_model_sound_modulo_congruence.
+
+(* unconditional: the fact about handle_congruence is discharged in EGraph/SoundClosed.v *)
+From SE Require Import EGraph.SoundClosed.
+Theorem C01_model_sound : forall terms ops hs s i j a b ti tj,
+  List.Forall rt_ok terms -> List.Forall rt_wf terms ->
+  run_ops terms ops [] empty_egraph = Ok (hs, s) ->
+  nth_opt hs i = Some a -> nth_opt hs j = Some b ->
+  nth_opt (handle_cterms terms ops) i = Some ti -> nth_opt (handle_cterms terms ops) j = Some tj ->
+  eg_eq s a b = Ok true -> Deriv (asserted terms ops) 0 ti tj.
+Proof. exact equality_sound_all. Qed.
+Print Assumptions C01_model_sound.
 
 Theorem C01_model_sound_certified : forall terms ops hs s i j a b ti tj,
   sound_premises terms ops = true ->
